@@ -1545,7 +1545,7 @@ func provisionedState(c *Ctx, mm msgMatcher) map[string]SV {
 	if fn == nil || fn.Signature.Recv() == nil {
 		return nil
 	}
-	prov := c.Prog.LookupMethod(fn.Signature.Recv().Type(), nil, "Provision")
+	prov := methodOf(c, fn.Signature.Recv().Type(), "Provision")
 	if prov == nil || len(prov.Blocks) == 0 {
 		provNote[key] = "no Provision method"
 		return nil
@@ -1564,7 +1564,18 @@ func provisionedState(c *Ctx, mm msgMatcher) map[string]SV {
 	zeroFields(sc.Heap, "m", fn.Signature.Recv().Type())
 	msgCtx = c
 	mm.cfg(sc.Heap)
-	sc.Call = func(callee string, args []SV, ev *symEval, st *symState) (SV, bool) {
+	sc.Call = provisionModels(inner)
+	paths, err := evalPaths(prov, sc)
+	if err != nil {
+		provNote[key] = "Provision undecided: " + err.Error()
+		return nil
+	}
+	return provisionEnd(key, paths)
+}
+
+// provisionModels: what provisioning code calls - the replacer, regular expressions, loggers.
+func provisionModels(inner func(string, []SV, *symEval, *symState) (SV, bool)) func(string, []SV, *symEval, *symState) (SV, bool) {
+	return func(callee string, args []SV, ev *symEval, st *symState) (SV, bool) {
 		switch {
 		case strings.HasSuffix(callee, "caddy/v2.NewReplacer"):
 			return symRef("repl", false), true
@@ -1587,14 +1598,17 @@ func provisionedState(c *Ctx, mm msgMatcher) map[string]SV {
 			return symStr(strings.ToUpper(args[0].S)), true
 		case strings.HasSuffix(callee, ".Logger"):
 			return symRef("logger", false), true
+		case callee == "fmt.Errorf" || callee == "errors.New":
+			return SV{K: "ref", Known: true, Desc: "err:" + callee}, true
 		}
-		return inner(callee, args, ev, st)
+		if inner != nil {
+			return inner(callee, args, ev, st)
+		}
+		return SV{}, false
 	}
-	paths, err := evalPaths(prov, sc)
-	if err != nil {
-		provNote[key] = "Provision undecided: " + err.Error()
-		return nil
-	}
+}
+
+func provisionEnd(key string, paths []Path) map[string]SV {
 	var ok []Path
 	for _, p := range paths {
 		if p.Outcome == "return" && len(p.Ret) == 1 && p.Ret[0].Known && p.Ret[0].Nil {
